@@ -57,8 +57,8 @@ PROPS = {
     "C15": {
         "claimed": True,
         "technique": "Coq proof over R (case analysis over every decision path, nra/lra, extreme-value principle via Coquelicot/Ranalysis, induction over partitions) over programs translated from the compiled code; one re-indexing lemma transfers the cubic proofs to all axes",
-        "level_text": "78 entry points. Quadratic (5 axes) and cubic (5 axes) *_inflection(s), min_*, max_*, *_bounds are translated (up to 188 control-flow paths each) and proved for ALL control points: reported inflections are zeros of the derivative in the unit interval and (cubic) every interior zero is reported; the min/max parameters lie in [0,1] and, whenever the coefficients the code compares with epsilon are exactly zero or exceed epsilon, NO point of the curve on [0,1] is lower/higher (via: a differentiable function on [0,1] attains its extrema at an end point or an interior critical point; quadratic-formula root lemmas). aabr/aabb (quadratic instances of the shared generic code, one free axis at a time) are proved to be the curve's coordinates at those parameters. The coarse phase of binary_search_point(_by_steps) returns a sample or the end point that is no farther than every other candidate (and the curve point of its parameter). length_by_discretization(n) equals the inscribed polyline length for n = 0..3 on all four curve types, and the polyline length is proved for EVERY n (induction) to be at least the chord and not to decrease when the segment count is doubled. None of these functions is executed by any unit test.",
-        "level_note": "Partial cells: optimality needs 'clean' coefficients (a coefficient in (0, eps] is treated as zero by the code and an extremum can then be missed by O(eps)); the refinement loop of binary_search_point (unbounded data-dependent iteration) is not translated: its coarse phase is proved on the translated code, and the whole search (coarse phase + loop) is a hand-written model over exact rationals (model/BezierSearch.v, theorem C15_search_loop by induction over the fuel: the result is on the curve and no farther than the end point and every coarse sample) tied to the code by running the real generic code on exact dyadic rationals against the extracted model; cubic aabr/aabb instances (11468 paths) are not proved separately: they are the same generic code as the quadratic ones, composed with the cubic bounds proved above; the control-polygon upper bound of the length is not proved; for general step counts the loop shape (one segment per i = 0..step_count, up to the u16 maximum) is a hand-written model (model/PolyLen.v, theorems C15_loop_*) tied to the code by an extracted-model correspondence on step counts up to 65535. Trusted: Coq kernel; stdlib real-number axioms as printed; symx translator (self-checked each run, constant folding of literal sub-expressions in the pinned-axis entries); Rust parametricity. Exact real arithmetic.",
+        "level_text": "78 entry points. Quadratic (5 axes) and cubic (5 axes) *_inflection(s), min_*, max_*, *_bounds are translated (up to 188 control-flow paths each) and proved for ALL control points: reported inflections are zeros of the derivative in the unit interval and (cubic) every interior zero is reported; the min/max parameters lie in [0,1] and, whenever the coefficients the code compares with epsilon are exactly zero or exceed epsilon, NO point of the curve on [0,1] is lower/higher (via: a differentiable function on [0,1] attains its extrema at an end point or an interior critical point; quadratic-formula root lemmas). aabr/aabb (quadratic instances of the shared generic code, one free axis at a time) are proved to be the curve's coordinates at those parameters. The coarse phase of binary_search_point(_by_steps) returns a sample or the end point that is no farther than every other candidate (and the curve point of its parameter). length_by_discretization(n) equals the inscribed polyline length for n = 0..3 on all four curve types, and the polyline length is proved for EVERY n (induction over partitions, de Casteljau subdivision) to be at least the chord, at most the control-polygon length, and not to decrease when the segment count is doubled. None of these functions is executed by any unit test.",
+        "level_note": "Partial cells: optimality needs 'clean' coefficients (a coefficient in (0, eps] is treated as zero by the code and an extremum can then be missed by O(eps)); the refinement loop of binary_search_point (unbounded data-dependent iteration) is not translated: its coarse phase is proved on the translated code, and the whole search (coarse phase + loop) is a hand-written model over exact rationals (model/BezierSearch.v, theorem C15_search_loop by induction over the fuel: the result is on the curve and no farther than the end point and every coarse sample) tied to the code by running the real generic code on exact dyadic rationals against the extracted model; cubic aabr/aabb instances (11468 paths) are not proved separately: they are the same generic code as the quadratic ones, composed with the cubic bounds proved above; for general step counts the loop shape (one segment per i = 0..step_count, up to the u16 maximum) is a hand-written model (model/PolyLen.v, theorems C15_loop_*) tied to the code by an extracted-model correspondence on step counts up to 65535. Trusted: Coq kernel; stdlib real-number axioms as printed; symx translator (self-checked each run, constant folding of literal sub-expressions in the pinned-axis entries); Rust parametricity. Exact real arithmetic.",
         "design_ref": "DESIGN.md section 7, C15",
         "assumptions": ["scalars are exact real numbers; T::epsilon() is an arbitrary positive real", "optimality statements assume the epsilon-compared coefficients are exactly zero or larger than epsilon in absolute value"],
         "trusted_extra": ["Coq extraction to OCaml of model/PolyLen.v (Require Import ExtrOcamlBasic only; N, positive stay the extracted Coq datatypes) plus extract/driver_len.ml and the harness symx/src/corr_len.rs", "Coq extraction to OCaml of model/BezierSearch.v (ExtrOcamlBasic only; Q, Z, positive stay the extracted Coq datatypes; results normalised with the extracted Qred) plus extract/driver_bsearch.ml, the exact dyadic scalar symx/src/dyadic.rs and the harness symx/src/corr_bsearch.rs"],
